@@ -178,12 +178,15 @@ func ParseContractFile(path string) (*ContractFile, error) {
 		if b == "" {
 			continue
 		}
-		wasGo := lastIsGo
-		_ = wasGo
 		word := b
 		rest := ""
 		if i := strings.IndexAny(b, " \t"); i >= 0 {
 			word, rest = b[:i], strings.TrimSpace(b[i+1:])
+		}
+		// inside a Go helper an indented line is Go source, whatever its first word (go func() {...}(), const ...)
+		if indent := len(body) - len(strings.TrimLeft(body, " \t")); lastIsGo && indent >= 2 && lastExpr != nil {
+			*lastExpr = *lastExpr + "\n" + b
+			continue
 		}
 		if word != "go" && (clauseKeywords[word] || word == "import" || word == "ghost" || word == "pred" || word == "const" || word == "lemma" || word == "pkginv" || word == "fact" || word == "immutable" || word == "func" || word == "extern" || word == "iface") {
 			// a "go" block continues until the next keyword line; "case"/"return"/"switch"/"}" lines are not keywords
